@@ -212,6 +212,7 @@ func Run(r *fw.Run) {
 		}
 		fills = append(fills, "é", "\u212a", "\ufffd", "\u00a0", "\u2028", "\xe2\x82", "١")
 		fills = append(fills, enum.LongFills('a')...)
+		fills = append(fills, enum.BoundaryRunes()...)
 		fills = append(fills, enum.LongFills('7')[:6]...) // numbers of up to 4097 digits (the reference uses math/big)
 		fills = append(fills, enum.LongFills('0')[:6]...)
 		r.Bounds["byte_sweep"] = fmt.Sprintf("%d slots x (256 byte values + %d multi-byte fills)", len(slots), len(fills)-256)
